@@ -47,7 +47,7 @@ def msg_record(m, payload_tok=None):
     rec = {
         't': t, 'flags': 0, 'id': 0, 'len': 0, 'reason': 0, 'ka': 0, 'mru': 0, 'mrucls': 'na',
         'xmrucls': 'na', 'total': -1, 'nid': '', 'size': clampi(m.get('size') or 0), 'rej': 0,
-        'ver': 0, 'magicok': True, 'nexts': 0, 'typ': 0,
+        'ver': 0, 'magicok': True, 'nexts': 0, 'typ': 0, 'tok': -1,
     }
     if t == 'CH':
         rec.update(flags=m['flags'], ver=m['version'], magicok=(m['magic'] == codec.MAGIC))
@@ -57,7 +57,8 @@ def msg_record(m, payload_tok=None):
     elif t == 'SEG':
         tot = codec.total_length_of(m)
         rec.update(flags=m['flags'], id=clampi(m['id']), len=clampi(m['len']),
-                   total=(-1 if tot is None else clampi(tot)), nexts=len(m['ext']))
+                   total=(-1 if tot is None else clampi(tot)), nexts=len(m['ext']),
+                   tok=(m['data'][0] if m['data'] else -1))
     elif t == 'ACK':
         rec.update(flags=m['flags'], id=clampi(m['id']), len=clampi(m['len']))
     elif t == 'REFUSE':
@@ -248,6 +249,8 @@ class World(object):
         self._scan_wire(end)
 
     def _scan_wire(self, end):
+        if self.wire_status[end] == 'stuck':
+            return
         buf = bytes(self.sock[end].sent_log)
         msgs, consumed, status = codec.parse_stream(buf)
         self.wire_status[end] = status
@@ -257,7 +260,15 @@ class World(object):
         self.parsed[end] = len(msgs)
         self.parsed_off[end] = consumed
         if status in ('unknown', 'malformed'):
-            self.emit('WireBad', end, status, i={'off': clampi(consumed)})
+            if end in self.real_ends:
+                self.emit('WireBad', end, status, i={'off': clampi(consumed)})
+            else:
+                # an adversary wrote something that cannot be framed: one opaque message, then nothing more
+                m = {'t': 'UNKNOWN', 'type': buf[consumed] if consumed < len(buf) else 0,
+                     'size': len(buf) - consumed}
+                self.stream_msgs[end].append(m)
+                self.emit('Wire', end, 'UNKNOWN', m=msg_record(m))
+                self.wire_status[end] = 'stuck'
 
     def _on_recv(self, sock, nbytes):
         self.emit('Rx', sock.name, i={'k': clampi(nbytes), 'off': clampi(sock.recv_total)})
@@ -294,6 +305,8 @@ class World(object):
     def in_stream(self, end):
         ''' Messages in the octet stream flowing *towards* ``end`` (independent decoding). '''
         peer = self.peer(end)
+        if peer not in self.real_ends:
+            return [m for m in self.stream_msgs[peer] if m['t'] != 'UNKNOWN']
         buf = bytes(self.sock[peer].sent_log)
         msgs, _c, _s = codec.parse_stream(buf)
         return msgs
@@ -430,7 +443,14 @@ class World(object):
         if data is not None:
             peer = self.peer(end)
             sent = self.sent_payload[peer].get(bid)
-            self.emit('UserPop', end, i={'id': bid, 'len': clampi(len(data)),
+            runs = []
+            if len(data) <= 4096:
+                for octet in bytes(data):
+                    if runs and runs[-1][0] == octet:
+                        runs[-1][1] += 1
+                    else:
+                        runs.append([octet, 1])
+            self.emit('UserPop', end, i={'id': bid, 'len': clampi(len(data)), 'runs': runs[:64],
                                          'same': bool(sent is not None and bytes(data) == sent)})
         self.end_callback(end, 'pop')
         return data
